@@ -11,7 +11,7 @@
        contributes no row, so it is not part of what a visitor can observe);
      - the fields in order and the methods in order, each with its index, header and equivalent events. *)
 From Coq Require Import Permutation.
-From FB Require Import C17.Model C17.Struct.
+From FB Require Import C17.Model C17.Struct C17.Replay.
 
 (* ---------- permutation up to a relation ---------- *)
 Definition perm_rel {A} (R : A -> A -> Prop) (a b : list A) : Prop :=
@@ -62,8 +62,9 @@ Qed.
 Definition opt_rel {A} (R : A -> A -> Prop) (a b : option A) : Prop :=
   match a, b with Some x, Some y => R x y | None, None => True | _, _ => False end.
 
-(* the rows two tables hold: the attributes that have rows, in order *)
-Definition same_rows (a b : list (str * bool)) : Prop := map fst (filter snd a) = map fst (filter snd b).
+(* the rows two tables hold: the same parsed rows, in the same order, each from the same kind of attribute
+   (how the rows are grouped into attributes is not something a visitor is told) *)
+Definition same_rows (a b : list (str * list row)) : Prop := flat_rows a = flat_rows b.
 
 (* events without nested events: EAttr, EFlags, EDeferred *)
 Definition sim_leaf (a b : ev) : Prop :=
@@ -76,8 +77,8 @@ Definition sim_leaves : list ev -> list ev -> Prop := perm_rel sim_leaf.
 (* one attribute-level event of a method or a class *)
 Definition sim_item (a b : ev) : Prop :=
   match a, b with
-  | ECode a1 ms1 ml1 fs1 es1, ECode a2 ms2 ml2 fs2 es2 =>
-      a1 = a2 /\ ms1 = ms2 /\ ml1 = ml2 /\ fs1 = fs2 /\ sim_leaves es1 es2
+  | ECode a1 ms1 ml1 fs1 xr1 es1, ECode a2 ms2 ml2 fs2 xr2 es2 =>
+      a1 = a2 /\ ms1 = ms2 /\ ml1 = ml2 /\ fs1 = fs2 /\ xr1 = xr2 /\ sim_leaves es1 es2
   | ERc a1 k1 n1 d1 es1, ERc a2 k2 n2 d2 es2 =>
       a1 = a2 /\ k1 = k2 /\ n1 = n2 /\ d1 = d2 /\ opt_rel sim_leaves es1 es2
   | _, _ => sim_leaf a b
